@@ -87,6 +87,9 @@ func daErr(class int) error {
 	return errors.New("sim: connection reset by peer")
 }
 
+// DAFaultName: "site:class" of a scripted outcome, for the statistics.
+func DAFaultName(f DAFault) string { return f.Site + ":" + daErrName[f.Class] }
+
 // DAReq: one request as the DA double served it.  Site "ok": the blobs; "ids"/"get": an error of class Class.
 type DAReq struct {
 	H     uint64
